@@ -50,9 +50,9 @@ func preludeText(query string) string {
 }
 
 var preludeChunks = []preludeChunk{
-	{[]string{"Slice","declare-datatypes","mk-slice","s-arr","s-off","s-len","s-cap"}, `(declare-datatypes ((Slice 0)) (((mk-slice (s-arr Int) (s-off Int) (s-len Int) (s-cap Int)))))`},
-	{[]string{"Iface","declare-datatypes","mk-iface","i-tag","i-val"}, `(declare-datatypes ((Iface 0)) (((mk-iface (i-tag Int) (i-val Int)))))`},
-	{[]string{"Flt","declare-datatypes","fin","fv","nan","pinf","ninf"}, `(declare-datatypes ((Flt 0)) (((fin (fv Real)) (nan) (pinf) (ninf))))`},
+	{[]string{"Slice", "declare-datatypes", "mk-slice", "s-arr", "s-off", "s-len", "s-cap"}, `(declare-datatypes ((Slice 0)) (((mk-slice (s-arr Int) (s-off Int) (s-len Int) (s-cap Int)))))`},
+	{[]string{"Iface", "declare-datatypes", "mk-iface", "i-tag", "i-val"}, `(declare-datatypes ((Iface 0)) (((mk-iface (i-tag Int) (i-val Int)))))`},
+	{[]string{"Flt", "declare-datatypes", "fin", "fv", "nan", "pinf", "ninf"}, `(declare-datatypes ((Flt 0)) (((fin (fv Real)) (nan) (pinf) (ninf))))`},
 	{[]string{nilSlice}, `(define-fun nil-slice () Slice (mk-slice 0 0 0 0))`},
 	{[]string{nilIface}, `(define-fun nil-iface () Iface (mk-iface 0 0))`},
 	{[]string{"wrap64"}, `(define-fun wrap64 ((x Int)) Int (ite (and (<= (- 9223372036854775808) x) (<= x 9223372036854775807)) x (- (mod (+ x 9223372036854775808) 18446744073709551616) 9223372036854775808)))`},
